@@ -262,6 +262,17 @@ func checkC18(c *Ctx) {
 					return
 				}
 			}
+			// an abort return carrying no key (0, true) has nothing to record
+			if len(ret.Results) == 2 && n == "(*core.Keys).ReadKey" {
+				kv, av := mayValues(ret.Results[0]), mayValues(ret.Results[1])
+				if len(kv) == 1 && len(av) == 1 {
+					if k, ok := constInt(kv[0]); ok && k == 0 {
+						if b, ok := constBool(av[0]); ok && b {
+							return
+						}
+					}
+				}
+			}
 			// the store must precede this return
 			if miss := pathAvoiding(f, nil, func(x ssa.Instruction) bool { return x == ssa.Instruction(ret) }, func(x ssa.Instruction) bool { return x == ssa.Instruction(store) }); miss != nil {
 				good = false
